@@ -43,8 +43,10 @@ func (e *shift) SubMergers(subs []Expr) []SubMerge {
 	matched := false
 	for i, sub := range subs {
 		if e.String() == sub.String() {
+			// only the first match, see aggregate.SubMergers
 			sms[i] = e.subMerge
 			matched = true
+			break
 		}
 	}
 	if matched {
